@@ -89,7 +89,10 @@ def check_weights(chk, cases, FL):
     import yaml, shutil
     from .. import realenv
     nrej = 0
-    for case in cases:
+    # a real experiment per malformed package costs ~0.1 s: the first 40 of them in the quick tier, every k-th (300 in all) otherwise
+    rej = [i for i, c in enumerate(cases) if c["rejected"]]
+    rej_run = set(rej[:40]) if chk.tier == "quick" else set(rej[::max(1, -(-len(rej) // 300))])
+    for idx, case in enumerate(cases):
         n, given, expected = case["n"], case["given"], case["expected"]
         doc = flowir_for(n, given)
         ck = ("w", tuple(given))
@@ -97,7 +100,7 @@ def check_weights(chk, cases, FL):
             # a malformed weight: either the validating loader refuses the package as invalid configuration, or the weights the
             # status monitor ends up with are a proper equal split (spec: Normalise = Fallback; any split within n/1000 of 1/n)
             nrej += 1
-            if nrej > 40 and chk.tier == "quick":
+            if idx not in rej_run:
                 continue
             import experiment.runtime.output as output
             try:
@@ -464,6 +467,12 @@ def check_interleavings(chk, reports, scratch, cov_key="monitor_interleavings_ex
 
 def run(tier):
     chk = Check(PID, tier)
+    import time as _time
+    phases, t_last = chk.cov.setdefault("phases_s", {}), [_time.time()]
+
+    def phase(name):
+        phases[name] = round(_time.time() - t_last[0], 1)
+        t_last[0] = _time.time()
     gen = os.path.join(SPEC, "gen")
     os.makedirs(gen, exist_ok=True)
     thorough = tier == "thorough"
@@ -500,6 +509,7 @@ def run(tier):
         if not r["coverage"].get(act):
             raise MachineryError("action %s of Progress.tla never taken (vacuous run): %s" % (act, r["coverage"]))
     chk.add_tlc(r)
+    phase("1 model checking")
     # 2. weights, spec -> code
     c3 = _cfg(os.path.join(gen, "Progress_emit_%s.cfg" % tier), "CONSTANTS\n  MinStages = 1\n  MaxStages = 3\n  %s\n  UseSpecial = TRUE\n  Restarts = FALSE\n  LoopStages = {}\n  MaxIter = 0\n  Emit = TRUE\nINIT Init\nNEXT Load\nINVARIANT EmitCase\nCHECK_DEADLOCK FALSE\n" % GRID_Q)
     r = tlc.run_tlc("Progress", c3, workers=1, timeout=900)
@@ -513,6 +523,7 @@ def run(tier):
         c3b = _cfg(os.path.join(gen, "Progress_emit_many.cfg"), "CONSTANTS\n  MinStages = 1\n  MaxStages = 8\n  GridPos = {0, 1250, 10000}\n  GridNeg = {}\n  UseSpecial = TRUE\n  Restarts = FALSE\n  LoopStages = {}\n  MaxIter = 0\n  Emit = TRUE\nINIT Init\nNEXT Load\nINVARIANT EmitCase\nCHECK_DEADLOCK FALSE\n")
         r = tlc.run_tlc("Progress", c3b, workers=1, timeout=900)
         check_weights(chk, r["cases"], FL)
+    phase("2 weights on the real loader")
     # 3. progress, spec -> code
     g4 = "GridPos = {0, 2500, 5000, 7500, 10000}\n  GridNeg = {}" if not thorough else "GridPos = {0, 2500, 3333, 3334, 5000, 7500, 10000}\n  GridNeg = {}"
     c4 = _cfg(os.path.join(gen, "Progress_states_%s.cfg" % tier), "CONSTANTS\n  MinStages = 1\n  MaxStages = %d\n  %s\n  UseSpecial = TRUE\n  Restarts = TRUE\n  LoopStages = {}\n  MaxIter = 0\n  Emit = TRUE\nINIT Init\nNEXT NextNoMon\nINVARIANT EmitState\nCHECK_DEADLOCK FALSE\n" % (2 if not thorough else 3, g4))
@@ -521,6 +532,7 @@ def run(tier):
     if len(states) < 100:
         raise MachineryError("TLC emitted only %d progress states" % len(states))
     check_progress(chk, states, chk.scratch)
+    phase("3 progress states on the real monitor")
     # 4. many stages (stage names 'stage10' < 'stage2' lexicographically): usable weight vectors only, distinct per position
     c5 = _cfg(os.path.join(gen, "Progress_many_%s.cfg" % tier), "CONSTANTS\n  MinStages = 11\n  MaxStages = %d\n  GridPos = {500, 1500, 4000}\n  GridNeg = {}\n  UseSpecial = FALSE\n  Restarts = FALSE\n  LoopStages = {}\n  MaxIter = 0\n  Emit = TRUE\n"
               "INIT Init\nNEXT Load\nINVARIANT EmitUsable\nINVARIANT WeightsSumToOne\nINVARIANT GivenPreserved\nCHECK_DEADLOCK FALSE\n" % (12 if thorough else 11))
@@ -535,6 +547,7 @@ def run(tier):
     pick = rnd.sample(many, 10 if not thorough else 40)
     check_progress(chk, [dict(n=c["n"], given=c["given"], w=c["expected"], st=["active"] + ["pending"] * (c["n"] - 1),
                               prog=[0] * c["n"], total=0) for c in pick], chk.scratch)
+    phase("4 many stages")
     # 5. CheckStatus concurrent with the controller
     c6 = _cfg(os.path.join(gen, "Progress_reports_%s.cfg" % tier), "CONSTANTS\n  MinStages = 2\n  MaxStages = %d\n  GridPos = {%s}\n  GridNeg = {}\n  UseSpecial = TRUE\n  Restarts = TRUE\n  LoopStages = {}\n  MaxIter = 0\n  Emit = TRUE\n"
               "SPECIFICATION Spec\nINVARIANT EmitReport\nINVARIANT ReportedInRange\nCHECK_DEADLOCK FALSE\n" % ((2, "2500, 7500") if not thorough else (3, "2500, 5000")))
@@ -543,6 +556,7 @@ def run(tier):
     if len(r["cases"]) < 500:
         raise MachineryError("TLC emitted only %d CheckStatus reports" % len(r["cases"]))
     check_interleavings(chk, r["cases"], chk.scratch)
+    phase("5 interleavings")
     # 6. loops: one stage hosts a DoWhile loop (in 3 stages the first or the second one, in 2 stages either); only packages whose
     #    weights are used as given.  6a: the controller alone - model checked, every state executed on the real code
     lconst = ("CONSTANTS\n  MinStages = 2\n  MaxStages = %d\n  GridPos = {%s}\n  GridNeg = {}\n  UseSpecial = FALSE\n  Restarts = TRUE\n"
@@ -567,6 +581,7 @@ def run(tier):
             len(lstates), len(past), len(ends), len(twice)))
     chk.cov["loop_states"] = {"emitted": len(lstates), "controller_past_loop_stage": len(past), "at_the_end": len(ends), "two_iterations": len(twice)}
     check_progress(chk, lstates, chk.scratch)
+    phase("6a loops: progress states")
     # 6b: CheckStatus concurrent with the controller; nothing beyond the first completed CheckStatus from every state
     c8 = _cfg(os.path.join(gen, "Progress_loopreports_%s.cfg" % tier), lconst % ((2, "3000, 7000", "1, 2") if not thorough else (3, "2500, 5000, 7500", "1, 2")) +
               "SPECIFICATION Spec\nINVARIANT TypeOK\nINVARIANT EmitReport\nINVARIANT ReportedInRange\nCONSTRAINT OnlyUsable\nCONSTRAINT FirstReport\nCHECK_DEADLOCK FALSE\n")
@@ -578,6 +593,7 @@ def run(tier):
     if len(lreports) < 500 or not any(max(x["iters0"]) == 2 for x in lreports):
         raise MachineryError("TLC emitted only %d CheckStatus reports with loops" % len(lreports))
     check_interleavings(chk, lreports, chk.scratch, cov_key="loop_interleavings_executed")
+    phase("6b loops: interleavings")
     chk.cov["rule"] = ("weight cases: every assignment of the grid (ten-thousandths incl. negative, >1, truncation-sensitive values, missing, "
                        "malformed) to <=3 stages, emitted by TLC with the specified result; progress cases: every reachable state of the "
                        "Progress.tla state machine for the small grid; loops: every reachable state of the state machine with one stage hosting a DoWhile "
